@@ -335,7 +335,8 @@ impl World {
         self.conns.iter().map(|c| {
             let fast = zlist(vec![
                 c.connected as i128, (c.phase == LinkPhase::Registering) as i128, c.window as i128,
-                c.last_received.map(|v| v as i128).unwrap_or(-1), c.reconnection.connection_established_ms as i128,
+                c.last_received.is_some() as i128, c.last_received.map(|v| v as i128).unwrap_or(0),
+                c.reconnection.connection_established_ms as i128,
                 c.reconnection.startup_grace_deadline_ms as i128,
                 match c.batch_sender.regime().as_str() { "low_activity" => 4, "normal" => 16, _ => 32 },
             ]);
